@@ -1199,7 +1199,8 @@ func (s *LoadingStore[K, V]) Get(ctx context.Context, key K) (V, error) {
 				loaded.Cost = s.cost(loaded.Value)
 			}
 
-			if err == nil {
+			// same admission rule as Set: a value larger than the cache is returned but not stored
+			if err == nil && loaded.Cost <= int64(s.cap) {
 				result = s.setShardWithoutLock(shard, h, key, loaded.Value, loaded.Cost, expire, false)
 				entryCost = loaded.Cost
 				entryExpire = expire
